@@ -1118,6 +1118,19 @@ fn gen_pool_realtime(rng: &mut Rng, stats: &mut Stats) -> Vec<String> {
         ops.push(format!("qpfail {} @0", rng.below(nq)));
         ops.push(format!("qppoll 1 {}", cap));
     }
+    if rng.chance(1, 2) {
+        // a peer answers some time after the start; the lookup is then left waiting for silent peers:
+        // the timeout still counts from the start of the lookup
+        ops.push("qpsleep 80".into());
+        for q in 0..nq {
+            ops.push(format!("qpok {} @0 {}", q, g.closer(rng, 2)));
+        }
+        ops.push(format!("qppoll 80 {}", cap));
+        ops.push("qpsleep 260".into());
+        ops.push(format!("qppoll 340 {}", cap));
+        ops.push(format!("qppoll 341 {}", cap));
+        return ops;
+    }
     ops.push("qpsleep 450".into());
     ops.push(format!("qppoll 450 {}", cap));
     ops.push(format!("qppoll 451 {}", cap));
